@@ -373,6 +373,7 @@ async fn run_async(fc: Option<FaultCase>, scen: Scen, clean: bool) -> Observed {
             None
         };
         let done = waiter(&table, format!("cause_action[{}]", cause.name()));
+        let n_streams_for_alert = scen.streams;
         harness_tasks.push(tokio::spawn(async move {
             if steps2.wait_for(|v| *v >= at).await.is_err() {
                 return;
@@ -381,7 +382,11 @@ async fn run_async(fc: Option<FaultCase>, scen: Scen, clean: bool) -> Observed {
             match cause {
                 Cause::Alert => {
                     peer2.disable_buffering(); // make sure the alert really reaches the wire
-                    let _ = peer2.write_control_frame(Frame::with_data(Command::Alert, 0, Bytes::from_static(b"boom"))).await;
+                    // the alert text is the peer's to choose: nothing, ASCII, multi-byte text (whole and cut inside a
+                    // character), bytes that are no text at all, a long one — picked by the position of the fault
+                    let texts: [&[u8]; 7] = [b"boom", b"", "\u{4f1a}\u{8bdd}\u{5173}\u{95ed}".as_bytes(), &"\u{4f1a}\u{8bdd}".as_bytes()[..4], &[0xff, 0xfe, 0x00, 0x80], &[0x80; 300], b"x"];
+                    let text = texts[(at + n_streams_for_alert) % texts.len()];
+                    let _ = peer2.write_control_frame(Frame::with_data(Command::Alert, 0, Bytes::copy_from_slice(text))).await;
                     done("sent".into());
                 }
                 Cause::OwnerClose => {
